@@ -356,15 +356,18 @@ def main():
     os.makedirs(os.path.join(HERE, "replays"), exist_ok=True)
 
     ctx = {"prop": prop, "tier": tier, "seed": seed, "here": HERE, "repo": REPO, "build": BUILD, "sh": sh,
-           "tree_hash": tree_hash, "Lock": Lock}
+           "tree_hash": tree_hash, "Lock": Lock, "build_model": build_model}
 
     if replay:
-        eng = importlib.import_module("engines." + P["engines"][0])
+        rp = json.load(open(replay))
+        # a replay is re-run by the engine that wrote it (a property may have several), else by the first one
+        ename = rp.get("engine") if rp.get("engine") in P["engines"] else P["engines"][0]
+        eng = importlib.import_module("engines." + ename)
         with Lock("build"):
             ok, hb = build_harness()
-            okm, exe = build_model(P["engines"][0]) if getattr(eng, "NEEDS_MODEL", True) else (True, None)
+            okm, exe = build_model(ename) if getattr(eng, "NEEDS_MODEL", True) else (True, None)
         ctx.update({"harness": hb if ok else None, "model_exe": exe if okm else None})
-        return eng.replay(ctx, json.load(open(replay)))
+        return eng.replay(ctx, rp)
 
     # ---- proof side
     with Lock("build"):
